@@ -24,6 +24,18 @@ Definition build_struct_entry (s : item_struct) (h : hattrs) (fs : list fentry) 
   | KDeref | KDerefMut => build_deref_for_struct s e fs
   end.
 
+(** operators are implemented for `&Self` as well: a `Self` in a field type is written out for them *)
+Definition fentry_expand_self (to : ty) (f : fentry) : fentry :=
+  {| fe_index := fe_index f;
+     fe_field := {| f_attrs := f_attrs (fe_field f); f_vis := f_vis (fe_field f); f_name := f_name (fe_field f);
+                    f_ty := expand_self_ty to (f_ty (fe_field f)) |};
+     fe_hattrs := fe_hattrs f |}.
+Definition fields_for (s : item_struct) (k : kind) (fs : list fentry) : list fentry :=
+  match k with
+  | KBin _ | KAssign _ | KUn _ => map (fentry_expand_self (this_ty_of (s_name s) (s_generics s))) fs
+  | _ => fs
+  end.
+
 (** `build_by_item_struct_core`: the kinds discovered so far are returned even on failure,
     because `remove_attrs` runs afterwards with whatever `kinds` holds. *)
 Definition build_by_item_struct_core (arg : option dx_args) (s : item_struct)
@@ -36,7 +48,7 @@ Definition build_by_item_struct_core (arg : option dx_args) (s : item_struct)
       (k,
        do h <- hattrs_from_attrs (s_attrs s) TType (without_derive_ex k);
        do fs <- fentries_from_fields (s_fields s) k;
-       Ok (map (fun e => apply_dump e (build_struct_entry s h fs e)) es))
+       Ok (map (fun e => apply_dump e (build_struct_entry s h (fields_for s (en_kind e) fs) e)) es))
   end.
 
 Definition unsupported_for_enum_msg (k : kind) : string :=
